@@ -1,4 +1,152 @@
-import PysnarkModel.Model.Prog
+import PysnarkModel.Lemmas.BranchRun
+import PysnarkModel.Lemmas.BranchUntouched
+import PysnarkModel.Lemmas.BranchInv
+import PysnarkModel.Lemmas.BranchObl
+/-!
+# C09 — oblivious if/elif/else, while and for compute what native control flow computes
+
+Statement language (`Model/Branching.lean`): assignments of `+ - *` expressions over tracked
+variables, secret inputs, loop variables and constants (bare names alias the object); `if/elif/else`
+on comparisons of such expressions, with variables first bound inside the arms; `for` with a secret
+bound and a public maximum; `while` with a public cap and an optional break condition; selection
+with lazily evaluated branches; arbitrary nesting.  `runBlock` is the model of the rendered Python
+source run against `pysnark/branching.py`; `nativeRun` (`Spec/Native.lean`) is the same program with
+native Python control flow on plain integers.
+
+* `C09_refines` — for ALL programs, nestings, initial values and inputs: when the traced run
+  completes, the native run does not fail with a `NameError`, and unless it reaches a `for` whose
+  bound is outside `0 … max` (outside the domain of the property), the tracked variables at the end
+  are exactly the native variables with the native values; no context is left open and the guard
+  is back to "true".  "The traced run completes" carries the range side conditions of the library:
+  a comparison raises when its operands leave the bit length, reading an unbound variable raises,
+  binding a variable in only some arms raises.
+* `C09_untouched` — a variable that a statement (block) does not assign keeps its object: value,
+  wire expression and identity, whatever the conditions are.
+* `C09_sat` — every constraint emitted by a completed run holds on the recorded witness, and every
+  tracked variable is coherent with its wire expression (all nesting depths: the effective guard of
+  a nested block is the bitwise AND of the enclosing guard and the condition).
+* `C09_oblivious` — two completed runs of the same program on any two vectors of secret values emit
+  the same constraints over the same wires, and end with the same wire expressions.
+* `C09_cex_negative_bound` — the cap precondition has two sides: a negative secret bound makes the
+  oblivious `for` run all `max` rounds where `range(bound)` runs none.
+
+Not covered by the Lean statement language (direct oracle only, `harness/props/c09_typed.py`):
+tracked variables of boolean, fixed-point and list kind and value-level `if_then_else` on them.
+-/
 namespace Pysnark
-example : True := trivial
+
+/-- **values**: the traced program ends with the native program's variables -/
+def C09_refines_full : Prop :=
+  ∀ (s0 : St) (init : List (Nat × Int)) (inputs : List Int) (prog : BBlock) (bs : BSt) (s : St),
+    s0.guard = none → s0.ignoreErrors = false →
+    runBlock init inputs prog s0 = .ok (bs, s) →
+    bs.stack = [] ∧
+    match nativeRun init inputs prog with
+    | .ok E => (∀ x, bs.bv.vals.valOf x = E.get? x) ∧ Live s
+    | .error .uncapped => True
+    | .error .name => False
+
+theorem C09_refines : C09_refines_full := by
+  intro s0 init inputs prog bs s hg hi h
+  obtain ⟨hst, hpost⟩ := runBlock_ref hg hi h
+  refine ⟨hst, ?_⟩
+  unfold Post at hpost
+  cases hN : nativeRun init inputs prog with
+  | ok E => rw [hN] at hpost; exact ⟨hpost.2, hpost.1⟩
+  | error e => rw [hN] at hpost; cases e <;> exact hpost
+
+/-- the same for one statement inside any program: from a state whose effective guard is true and
+whose tracked variables are the native variables, to such a state -/
+theorem C09_refines_stmt (st : BStmt) (env : BEnv) (nc : NCtx) (bs bs' : BSt) (s s' : St) (E : NEnv)
+    (hi : RefI env nc) (hl : Live s) (hr : RefV bs.bv.vals E) (h : execStmt env st bs s = .ok (bs', s')) :
+    match nStmt nc st E with
+    | .ok E' => Live s' ∧ RefV bs'.bv.vals E'
+    | .error .uncapped => True
+    | .error .name => False :=
+  execStmt_ref st env nc bs bs' s s' E hi hl hr h
+
+/-- **untouched variables**: same object (value, wire expression, identity) after the statement -/
+theorem C09_untouched (st : BStmt) (x : Nat) (env : BEnv) (bs bs' : BSt) (s s' : St)
+    (hx : st.assigns x = false) (h : execStmt env st bs s = .ok (bs', s')) :
+    bs'.bv.vals.get? x = bs.bv.vals.get? x ∧ bs'.stack = bs.stack :=
+  ⟨execStmt_untouched st x env bs bs' s s' hx h, (execStmt_struct st env bs bs' s s' h).1⟩
+
+theorem C09_untouched_block (b : BBlock) (x : Nat) (env : BEnv) (bs bs' : BSt) (s s' : St)
+    (hx : b.assigns x = false) (h : execBlock env b bs s = .ok (bs', s')) :
+    bs'.bv.vals.get? x = bs.bv.vals.get? x :=
+  execBlock_untouched b x env bs bs' s s' hx h
+
+/-- **satisfaction and coherence** of every completed run, for every prime modulus -/
+theorem C09_sat (p : Nat) (hp : p.Prime) (bl res : Nat) (init : List (Nat × Int)) (inputs : List Int)
+    (prog : BBlock) (bs : BSt) (s : St) (h : runBlock init inputs prog (St.init p bl res) = .ok (bs, s)) :
+    (∀ c ∈ s.cons, Sat s.p s.assign c) ∧ (∀ x o, bs.bv.vals.get? x = some o → Coh s o.v) := by
+  obtain ⟨_, inv, good⟩ := runBlock_inv (Inv.init p bl res) ⟨p, hp, rfl⟩ h
+  exact ⟨inv.sat, fun x o hx => (good.vals.get? hx).2⟩
+
+/-- **obliviousness**: the constraint system and the final wire expressions do not depend on the
+secret values (hence not on which branches were taken, nor on how often a loop ran) -/
+theorem C09_oblivious (s1 s2 : St) (hs : s1.shape = s2.shape) (init1 init2 : List (Nat × Int))
+    (hinit : Forall2 (fun a b => a.1 = b.1) init1 init2) (in1 in2 : List Int) (hin : in1.length = in2.length)
+    (prog : BBlock) (bs1 bs2 : BSt) (t1 t2 : St)
+    (h1 : runBlock init1 in1 prog s1 = .ok (bs1, t1)) (h2 : runBlock init2 in2 prog s2 = .ok (bs2, t2)) :
+    t1.shape = t2.shape ∧ ValsRel bs1.bv.vals bs2.bv.vals := by
+  obtain ⟨hr, ht⟩ := runBlock_obl hinit hin prog s1 s2 bs1 bs2 t1 t2 hs h1 h2
+  exact ⟨ht, hr.bv.vals⟩
+
+/-! ## the cap precondition has two sides -/
+
+/-- `for l0 in _range(inp[0], max=2): x0 = x0 + 1` -/
+def exNeg : BBlock := .cons (.forr 0 (.inp 0) 2 (.cons (.assign 0 (.add (.var 0) (.const 1))) .nil)) .nil
+
+def runVals (init : List (Nat × Int)) (inputs : List Int) (prog : BBlock) (s0 : St) : Option (List (Nat × Int) × St) :=
+  match runBlock init inputs prog s0 with
+  | .ok (bs, s) => some (bs.bv.vals.map (fun kv => (kv.1, kv.2.v.value)), s)
+  | .error _ => none
+
+/-- with the secret bound −1 the oblivious loop runs both rounds (`x0` ends as 5) where
+`for l0 in range(-1)` runs none (`x0` stays 3): `0 ≤ bound` is part of the precondition, and the
+reference semantics reports the run as outside the domain (finding C09-negative-bound) -/
+theorem C09_cex_negative_bound :
+    (runVals [(0, 3)] [-1] exNeg (St.init 97 3 8)).map (·.1) = some [(0, 5)] ∧
+    nativeRun [(0, 3)] [-1] exNeg = .error .uncapped ∧
+    nIter ((-1 : Int).toNat) (fun _ e => nBlock { inputs := [-1] } (.cons (.assign 0 (.add (.var 0) (.const 1))) .nil) e) 0 [(0, 3)]
+      = .ok [(0, 3)] := by
+  decide +kernel
+
+/-! ## non-vacuity -/
+
+/-- `if in0 == 1: x0 = x0 + 2; x1 = in0  elif x0 < 1: x1 = x0 * 2  else: x1 = x0` (x1 first bound inside),
+`for l0 in range(in1) [max 2]: x0 = x0 + l0`, `while x0 != 5 [cap 2]: x0 = x0 + 1; if x0 == 4: break`,
+`x1 = if_then_else(in0 != 0, lambda: x0 + 1, lambda: 2)` -/
+def exProg09 : BBlock :=
+  .cons (.ifs ⟨.eq, .inp 0, .const 1⟩ (.cons (.assign 0 (.add (.var 0) (.const 2))) (.cons (.assign 1 (.inp 0)) .nil))
+     (.elif ⟨.lt, .var 0, .const 1⟩ (.cons (.assign 1 (.mul (.var 0) (.const 2))) .nil)
+       (.els (.cons (.assign 1 (.var 0)) .nil)))) <|
+  .cons (.forr 0 (.inp 1) 2 (.cons (.assign 0 (.add (.var 0) (.loopvar 0))) .nil)) <|
+  .cons (.whil ⟨.ne, .var 0, .const 5⟩ 2 (.cons (.assign 0 (.add (.var 0) (.const 1))) .nil) (some ⟨.eq, .var 0, .const 4⟩)) <|
+  .cons (.ite 1 ⟨.ne, .inp 0, .const 0⟩ (.add (.var 0) (.const 1)) (.const 2)) .nil
+
+def satAll (s : St) : Bool :=
+  s.cons.all (fun c => (LC.eval s.assign c.1 * LC.eval s.assign c.2.1 - LC.eval s.assign c.2.2) % s.p == 0)
+
+/-- `C09_refines`, `C09_sat`: the run completes (first arm taken, loop of 2 rounds, while stops by its test),
+ends with the native values, and its 38 constraints hold -/
+example : (match runVals [(0, 1)] [1, 2] exProg09 (St.init 97 3 8), nativeRun [(0, 1)] [1, 2] exProg09 with
+    | some (vs, s), .ok E => vs == [(0, 5), (1, 6)] && E == [(0, 5), (1, 6)] && satAll s && decide (s.cons.length > 30)
+    | _, _ => false) = true := by decide +kernel
+
+/-- `C09_oblivious`, other branches: else arm, loop of 0 rounds, while stopped by the break; same constraints -/
+example : (match runVals [(0, 1)] [1, 2] exProg09 (St.init 97 3 8), runVals [(0, 2)] [0, 0] exProg09 (St.init 97 3 8),
+      nativeRun [(0, 2)] [0, 0] exProg09 with
+    | some (_, s), some (vs', s'), .ok E' => vs' == [(0, 4), (1, 2)] && E' == [(0, 4), (1, 2)] && satAll s' &&
+        decide (s.shape = s'.shape)
+    | _, _, _ => false) = true := by decide +kernel
+
+/-- `C09_untouched`: `x0` is not assigned by the `if`; it is the same object afterwards and the two
+merges cost no constraint for it -/
+example : (match runBlock [(0, 1), (1, 7)] [0] (.cons (.ifs ⟨.eq, .inp 0, .const 1⟩ (.cons (.assign 1 (.inp 0)) .nil) .endif) .nil)
+      (St.init 97 3 8) with
+    | .ok (bs, _) => bs.bv.vals.get? 0 == some ⟨⟨1, [(Wire.priv 0, 1)]⟩, 0⟩ && (bs.bv.vals.valOf 1 == some 7)
+    | _ => false) = true := by decide +kernel
+
 end Pysnark
